@@ -144,7 +144,44 @@ func Discharge(cfg *SolverCfg, obls []*Obligation) {
 			// a conjunctive goal is proved conjunct by conjunct (each gets its own skolemisation and hints)
 			goals := splitGoal(o.Goal)
 			o.Status = "discharged"
+			// conjuncts that literally are assumptions need no solver
+			have := map[*Term]bool{}
+			for _, a := range o.Assump {
+				have[a] = true
+			}
+			done := make([]bool, len(goals))
+			var qf []*Term
 			for gi, goal := range goals {
+				if have[goal] || (goal.Op == "=>" && have[goal.Args[1]]) {
+					done[gi] = true
+				} else if !containsQuant(goal) {
+					qf = append(qf, goal)
+				}
+			}
+			// all quantifier-free conjuncts together first (one ground query instead of dozens)
+			if len(qf) > 3 {
+				as, g := withHints(o.Assump, And(qf...))
+				var ground []*Term
+				for _, t := range as {
+					if !containsQuant(t) {
+						ground = append(ground, t)
+					}
+				}
+				aa := solveGround(cfg, QueryGround(ground, g))
+				o.Ms += aa.ms
+				if aa.status == "unsat" {
+					o.Solver = aa.solver
+					for gi, goal := range goals {
+						if !containsQuant(goal) {
+							done[gi] = true
+						}
+					}
+				}
+			}
+			for gi, goal := range goals {
+				if done[gi] {
+					continue
+				}
 				as, g := withHints(o.Assump, goal)
 				// stage A: ground instances only (quantified assumptions dropped: sound, and usually enough)
 				var ground []*Term
@@ -158,7 +195,7 @@ func Discharge(cfg *SolverCfg, obls []*Obligation) {
 					qa := QueryGround(ground, g)
 					aa := solveGround(cfg, qa)
 					if d := os.Getenv("GVC_DUMPGROUND"); d != "" && aa.status != "unsat" {
-						os.WriteFile(fmt.Sprintf("%s/ground_%d_%d.smt2", d, o.Path, gi+1), []byte(qa), 0o644)
+						os.WriteFile(fmt.Sprintf("%s/ground_%s_%d_%d.smt2", d, sanitize(o.Name), o.Path, gi+1), []byte(qa), 0o644)
 					}
 					if aa.ms > 1500 && os.Getenv("GVC_SLOW") != "" {
 						fmt.Printf("  slowground %s [%d/%d] %dms %s size=%d\n", o.Name, gi+1, len(goals), aa.ms, aa.status, len(qa))
@@ -254,7 +291,6 @@ func CheckSat(cfg *SolverCfg, assump []*Term) solverAnswer {
 	return b
 }
 
-
 func containsQuant(t *Term) bool {
 	if t.Op == "forall" || t.Op == "exists" {
 		return true
@@ -278,11 +314,14 @@ func solveGround(cfg *SolverCfg, query string) solverAnswer {
 		return solverAnswer{status: "error"}
 	}
 	defer os.Remove(file)
-	a := runSolver(context.Background(), "z3-new", file, 3*time.Second)
+	to := cfg.Full / 2
+	if to < 3*time.Second {
+		to = 3 * time.Second
+	}
+	a := runSolver(context.Background(), "z3-new", file, to)
 	a.solver = "z3-new(ground instances)"
 	return a
 }
-
 
 func stripQuantifiedAsserts(q string) string {
 	var out []string
@@ -294,7 +333,6 @@ func stripQuantifiedAsserts(q string) string {
 	}
 	return strings.Join(out, "\n")
 }
-
 
 // splitGoal breaks a goal into conjuncts, also below implications: A => (B && C) becomes A => B, A => C.
 func splitGoal(g *Term) []*Term {
@@ -341,7 +379,6 @@ func splitGoal(g *Term) []*Term {
 	return []*Term{g}
 }
 
-
 func groundModel(cfg *SolverCfg, assump []*Term, goal *Term) string {
 	q := "(set-option :produce-models true)\n" + QueryGround(assump, goal) + "(get-model)\n"
 	id := atomic.AddInt64(&solverSeq, 1)
@@ -357,7 +394,6 @@ func groundModel(cfg *SolverCfg, assump []*Term, goal *Term) string {
 	return ""
 }
 
-
 // explainMissing (debug aid): the ground stage answered sat; find a quantified assumption whose brute-force
 // instantiation (all ground Int select indices of the query and the skolems, minus every rest) makes it unsat.
 func explainMissing(cfg *SolverCfg, name string, ground, all []*Term, goal *Term) {
@@ -366,12 +402,89 @@ func explainMissing(cfg *SolverCfg, name string, ground, all []*Term, goal *Term
 	var idxs []*Term
 	dup := map[*Term]bool{}
 	for _, g := range sels {
-		if !dup[g.idx] && !g.ite {
+		if g.app == "" && !dup[g.idx] && !g.ite {
 			dup[g.idx] = true
 			idxs = append(idxs, g.idx)
 		}
 	}
 	fmt.Printf("  WHY %s: %d ground selects, %d distinct indices\n", name, len(sels), len(idxs))
+	found := false
+	defer func() {
+		if found {
+			return
+		}
+		// phase 2: instantiate all quantified assumptions at once, at skolem-derived indices only; then minimise
+		var skIdx []*Term
+		for _, g := range idxs {
+			if strings.Contains(g.String(), "sk!") {
+				skIdx = append(skIdx, g)
+			}
+		}
+		type qinst struct {
+			qi    int
+			insts []*Term
+		}
+		var qs []qinst
+		for qi, a := range all {
+			var guard *Term
+			q := a
+			if a.Op == "=>" && a.Args[1].Op == "forall" {
+				guard, q = a.Args[0], a.Args[1]
+			}
+			if q.Op != "forall" || len(q.Bound) != 1 || q.Bound[0].Sort != IntSort {
+				continue
+			}
+			b := q.Bound[0]
+			rests := []*Term{IntLit(0)}
+			for _, p := range selectPatterns(q.Args[0], b) {
+				rests = append(rests, p.rest)
+			}
+			var insts []*Term
+			for _, r := range rests {
+				for _, g := range skIdx {
+					if len(insts) > 60 {
+						break
+					}
+					inst := Substitute(q.Args[0], map[string]*Term{b.Name: Sub(g, r)})
+					if guard != nil {
+						inst = Implies(guard, inst)
+					}
+					insts = append(insts, inst)
+				}
+			}
+			qs = append(qs, qinst{qi, insts})
+		}
+		build := func(skip map[int]bool) []*Term {
+			out := append([]*Term{}, ground...)
+			for _, q := range qs {
+				if !skip[q.qi] {
+					out = append(out, q.insts...)
+				}
+			}
+			return out
+		}
+		skip := map[int]bool{}
+		aa := solveGround(cfg, QueryGround(build(skip), goal))
+		fmt.Printf("  WHY   phase 2: %d quantified assumptions x %d skolem-derived indices together: %s\n", len(qs), len(skIdx), aa.status)
+		if aa.status != "unsat" {
+			return
+		}
+		for _, q := range qs {
+			skip[q.qi] = true
+			if a2 := solveGround(cfg, QueryGround(build(skip), goal)); a2.status != "unsat" {
+				delete(skip, q.qi)
+			}
+		}
+		for _, q := range qs {
+			if !skip[q.qi] {
+				t := all[q.qi].String()
+				if len(t) > 1500 {
+					t = t[:1500]
+				}
+				fmt.Printf("  WHY   needed #%d: %s\n", q.qi, t)
+			}
+		}
+	}()
 	for qi, a := range all {
 		var guard *Term
 		q := a
@@ -408,6 +521,7 @@ func explainMissing(cfg *SolverCfg, name string, ground, all []*Term, goal *Term
 			if len(qs) > 4000 {
 				qs = qs[:4000]
 			}
+			found = true
 			fmt.Printf("  WHY   under-instantiated assumption #%d (%d brute-force instances suffice): %s\n", qi, len(insts), qs)
 		}
 	}
